@@ -212,8 +212,25 @@ fn random_corpus(rng: &mut rand::rngs::StdRng, dir: &std::path::Path, round: usi
         let data = dir.join(format!("rnd_data{}.txt", round % 4));
         std::fs::write(&defs, &sql).unwrap();
         std::fs::write(&data, lines.iter().map(|l| format!("{}\n", l)).collect::<String>()).unwrap();
-        return Some(Corpus { name: "random-definition", defs: leak(defs.to_str().unwrap().to_string()), data: leak(data.to_str().unwrap().to_string()),
-                             queries: vec![
+        // statements put together clause by clause over the table's columns (no statement of them depends on the order of equal rows; only those whose
+        // table does not depend on the order of the lines at all are marked order-free)
+        let ncols = cols.len();
+        let col = |rng: &mut rand::rngs::StdRng| format!("c{}", rng.gen_range(1..=ncols));
+        let mut generated: Vec<Query> = Vec::new();
+        for _ in 0..6 {
+            let wh = match rng.gen_range(0..5) { 0 => format!(" WHERE {} IS NOT NULL", col(rng)), 1 => format!(" WHERE {} IS NULL OR {} IS NOT NULL", col(rng), col(rng)),
+                                                 2 => format!(" WHERE NOT {} IS NULL", col(rng)), 3 => " WHERE length(input) > 3".to_string(), _ => String::new() };
+            let (text, agg, free) = match rng.gen_range(0..6) {
+                0 => (format!("SELECT {}, {} AS second, input FROM x{}", col(rng), col(rng), wh), false, false),
+                1 => (format!("SELECT DISTINCT {}, {} AS second FROM x{}", col(rng), col(rng), wh), false, false),
+                2 => { let g = col(rng); (format!("SELECT {}, COUNT(*) AS n, COUNT({}) AS m FROM x{} GROUP BY {}", g, col(rng), wh, g), true, false) }
+                3 => { let g = col(rng); (format!("SELECT {}, COUNT(*) AS n FROM x{} GROUP BY {} HAVING COUNT(*) >= 2", g, wh, g), true, false) }
+                4 => (format!("SELECT COUNT(*) AS n, COUNT({}) AS m, COUNT(DISTINCT {}) AS d FROM x{}", col(rng), col(rng), wh), true, true),
+                _ => { let g = col(rng); (format!("SELECT DISTINCT COUNT(*) AS n FROM x{} GROUP BY {}", wh, g), true, false) }
+            };
+            generated.push(Query { sql: leak(text), agg, order_free: free });
+        }
+        let mut queries = vec![
                                  q("SELECT * FROM x", false, false),
                                  q("SELECT DISTINCT c1 FROM x", false, false),
                                  q("SELECT c1, input FROM x WHERE c1 IS NOT NULL", false, false),
@@ -221,7 +238,10 @@ fn random_corpus(rng: &mut rand::rngs::StdRng, dir: &std::path::Path, round: usi
                                  q("SELECT COUNT(*) AS n, COUNT(c1) AS m FROM x", true, true),
                                  q("SELECT COUNT(*) * 2 AS n FROM x", true, true),
                                  q("SELECT DISTINCT COUNT(*) AS n FROM x GROUP BY c1", true, false),
-                             ],
+                             ];
+        queries.extend(generated);
+        return Some(Corpus { name: "random-definition", defs: leak(defs.to_str().unwrap().to_string()), data: leak(data.to_str().unwrap().to_string()),
+                             queries,
                              noise, combine: None });
     }
     None
